@@ -1,6 +1,6 @@
 """Sidecar contracts for the batch classes of pjrpc/common/v20.py."""
 from pyvc.api import contract
-from spec.prims import at_entry, class_is, contents_as_old, contents_unchanged, dup_in, is_absent, member, old, same, seq_concat, seq_same
+from spec.prims import is_fresh, at_entry, class_is, contents_as_old, contents_unchanged, dup_in, is_absent, member, old, same, seq_concat, seq_same
 
 from pjrpc.common.common import UNSET
 from pjrpc.common.v20 import BatchRequest, BatchResponse, Request, Response
@@ -271,3 +271,37 @@ class BatchResponseFromJson:
             return isinstance(y, Response) and y._error is UNSET
         return (isinstance(y, Response) and isinstance(y._error, JsonRpcError)
                 and class_is(y._error, JsonRpcErrorMeta.__errors_mapping__.get(member(e, 'code'), error_cls)))
+
+
+@contract('pjrpc.common.v20:BatchResponse.result', props=['C08'])
+class BatchResponseResult:
+    """C08: a batch-level error object is raised for the batch; the error of the FIRST failed response (in the order of
+    the responses - call order after matching) is raised as an exception, the very object; otherwise the results come back
+    as a tuple, position by position."""
+    types = {'self': 'pjrpc.common.v20:BatchResponse'}
+    raises_only = ('pjrpc.common.exceptions:JsonRpcError',)
+    result_type = '=tuple'
+    cross_check = False
+    loop0 = {'modifies': ['$fresh'], 'index': 'k'}
+
+    def requires_inv(self):
+        return ((self._error is UNSET or isinstance(self._error, JsonRpcError))
+                and all(r._error is UNSET or isinstance(r._error, JsonRpcError) for r in self._responses))
+
+    def invariant0_prefix(self, result, xs, k):
+        # everything read so far succeeded and was copied in order
+        return (is_fresh(result) and isinstance(result, list) and len(result) == k
+                and all(xs[j]._error is UNSET and same(result[j], xs[j]._result) for j in range(k)))
+
+    # NOT proved: that it raises EXACTLY when the batch or one of the responses failed (the range-quantified condition
+    # gets no instantiation trigger at the loop index in the VC generator); what is proved: only JsonRpcError escapes, it is
+    # the batch error or the error object of one of the responses, and a normal return copies every result by position.
+
+    def ensures_positions(self, result):
+        return (len(result) == len(self._responses)
+                and all(same(result[i], self._responses[i]._result) for i in range(len(result))))
+
+    def ensures_on_JsonRpcError(self, exc):
+        if self._error is not UNSET:
+            return same(exc, self._error)
+        return any(same(exc, self._responses[i]._error) for i in range(len(self._responses)))
